@@ -234,6 +234,16 @@ func cmtBody(r *core.Rng) []byte {
 	if r.Bool() {
 		hdr = []byte("MM\x00*\x00\x00\x00\x08")
 	}
+	if r.Chance(1, 5) {
+		// a block whose first bytes are not a TIFF signature (BigTIFF, a blanked or foreign header):
+		// the byte order is unknown to whoever reads the rest
+		hdr = append([]byte{}, hdr...)
+		copy(hdr, r.PickStr("II+\x00", "MM\x00+", "\x00\x00\x00\x00", "Exif", "II\x00*", "MMMM", "\xff\xd8\xff\xe1"))
+		if r.Bool() {
+			t, _, _ := SynthPayload(r, r.Bool(), 1)
+			return append(hdr[:4:4], t[4:]...)
+		}
+	}
 	switch r.Intn(5) {
 	case 0:
 		return hdr[:r.Range(0, 8)]
